@@ -267,6 +267,7 @@ static const char *const near_bases[][4] = {
   /* G20 */ { "nz", "ny", "nx", 0 }, /* G21 */ { "paqraq", "paxpaq", "raeqpaq", "paqpaq" }, /* G22 */ { "aabc", "abc", "aaabc", "aaab" },
   /* G23 */ { "aaa", "aaaa", "aa", 0 }, /* G24 */ { "(a))", "(at,(a),a)a", "(a,a", "(a,at)" }, /* G25 */ { "bca", "abcd", "bcd", "bcad" },
   /* G26 */ { "a", 0, 0, 0 }, /* G27 */ { "yyy", "yyyyy", 0, 0 },
+  /* G28 */ { "aaa", "aaaa", 0, 0 }, /* G29 */ { "ab", "acb", "abc", "a" }, /* G30 */ { "abcxyyr", "abcd", "abxq", "abcxr" },
 };
 static void p_input_near (int gi, int base, int k)
 {
